@@ -150,3 +150,11 @@ ACC1_BELIEF_WEAKER = {
     "CircularBuffer::get_maybe_uninit": "asserts size > 0 and index < N; the table demands index < size",
     "CircularBuffer::get_maybe_uninit_mut": "asserts size > 0 and index < N; the table demands index < size",
 }
+
+# functions that relocate an unbounded number of elements
+BULK_MOVERS = {
+    "CircularBuffer::remove": "closes the gap left by the removed element (up to len - i elements)",
+    "<Drain<N, T> as Drop>::drop": "back-fills the drained hole (up to len - j elements)",
+    "CircularBuffer::make_contiguous": "rotates the array when the contents wrap",
+    "<CircularBuffer<N, T> as From<[T; M]>>::from": "constructor: copies min(N, M) elements out of the source array",
+}
